@@ -723,8 +723,9 @@ def _total(ctx):
             cmd_ex, _ = m.machines()
             if which == 'cmd':
                 ms.model.overrides[ms.evt_dispatch] = cmd_ex.ov_evt_havoc
+            lockers = set(Index(m.prog).functions_with_role('mutex.'))
             try:
-                outs = m.run(entry, [SELF], setup=setup, shallow={entry, ms.cmd_dispatch})
+                outs = m.run(entry, [SELF], setup=setup, shallow={entry, ms.cmd_dispatch} | lockers)
             finally:
                 ms.model.overrides.pop(ms.evt_dispatch, None)
             hit = False
